@@ -101,8 +101,12 @@ def unzip(t: T) -> Optional[T]:
 
 
 class Typer:
-    def __init__(self, param_roles: Optional[Dict[str, Tuple[str, ...]]] = None, ms_params: Tuple[str, ...] = ()):
-        self.param_roles = param_roles or {}
+    def __init__(self, param_roles: Optional[Dict[str, Tuple[str, ...]]] = None, ms_params: Tuple[str, ...] = (),
+                 param_arrays: Optional[Dict[str, str]] = None):
+        self.param_roles = dict(param_roles or {})
+        self.param_arrays = dict(param_arrays or {})     # parameter name -> model array it stands for (raw-array entry points)
+        for pn, arr in self.param_arrays.items():
+            self.param_roles.setdefault(pn, MODEL_ARRAYS[arr])
         self.ms_params = set(ms_params)
         self._memo: Dict[int, tuple] = {}
         self.prev_env: Dict[str, Tuple[str, ...]] = {}      # roles of loop-carried variables, set by the rules
@@ -115,6 +119,10 @@ class Typer:
         for x in walk(t):
             if x.op == "attr" and x.args[1] in MODEL_ARRAYS:
                 out.add(x.args[1])
+            if x.op == "param" and x.args[1] in self.param_arrays:
+                out.add(self.param_arrays[x.args[1]])
+            if x.op == "param" and x.args[1] in ("discount_rate", "gamma"):
+                out.add("discount_rate")
             if x.op == "attr" and x.args[1] == "discount_rate":
                 out.add("discount_rate")
         return out
@@ -125,6 +133,8 @@ class Typer:
             return None
         if t.op == "attr" and t.args[1] in MODEL_ARRAYS:
             return t.args[1]
+        if t.op == "param" and t.args[1] in self.param_arrays:
+            return self.param_arrays[t.args[1]]
         if t.op == "call":
             f = t.args[0]
             if f.op == "attr" and f.args[1] in PRESERVE_METHODS:
